@@ -137,8 +137,14 @@ def gen_program(rng, maxlen=30, aligned_only=False, allow_fault=True, ecalls=Tru
         elif k < 0.89 and jalr:
             j = rng.randrange(0, n + 2)
             r = rng.choice([5, 6, 7])
-            prog.append([MN["addi"], r, 0, 4 * j + rng.choice([0, 0, 0, 1])])
-            prog.append([MN["jalr"], rng.choice([0, 1, r]), r, rng.choice([0, 0, 4, -4, 1])])
+            if rng.random() < 0.25:
+                # base register at the top of the 32-bit range: base + offset wraps past 2^32 onto the target
+                back = 4 * rng.randrange(1, 200)
+                prog.append([MN["addi"], r, 0, -back])
+                prog.append([MN["jalr"], rng.choice([0, 1, r]), r, back + 4 * j + rng.choice([0, 0, 1])])
+            else:
+                prog.append([MN["addi"], r, 0, 4 * j + rng.choice([0, 0, 0, 1])])
+                prog.append([MN["jalr"], rng.choice([0, 1, r]), r, rng.choice([0, 0, 4, -4, 1])])
         elif k < 0.91 and ecalls:
             prog.append([MN["ecall"]])            # bare ecall: a7/a0 come from the presets or from far earlier code
         elif k < 0.97 and ecalls:
